@@ -104,13 +104,7 @@ Definition to_model (o : outcome aval) : outcome (resval B) :=
   end.
 
 Variable c : cfg.
-Variable ex : path -> bool.          (* MIME exemption, fixed per name *)
 Variable U X : list path.            (* names of the history; other-layout chunk paths *)
-
-Definition zipped (n : path) : bool := gzip c && negb (ex n).
-Definition relphys (n : path) : path := if zipped n then with_gz n else n.
-Definition phys (n : path) : path := base c ++ relphys n.
-Definition enc (n : path) (b : list N) : B := if zipped n then gz (level c) b else plain b.
 
 Hypothesis Hbase : cleanb (base c) = true.
 Hypothesis HU : forall n, In n U -> n <> [] /\ cleanb n = true /\ gzfree n = true.
@@ -120,6 +114,15 @@ Hypothesis HX : forall o, In o X -> ~ In o U /\ o <> [] /\ cleanb o = true /\ gz
 Notation lookup := (lookup B).
 Notation update := (update B).
 Notation run := (run B (plain [])).
+
+(* ---------- one state: the form (plain / .gz) in which each name is held ---------- *)
+Section STATE.
+Variable fm : path -> bool.          (* true: the name is currently held as <name>.gz *)
+
+Definition zipped (n : path) : bool := fm n.
+Definition relphys (n : path) : path := if zipped n then with_gz n else n.
+Definition phys (n : path) : path := base c ++ relphys n.
+Definition enc (n : path) (b : list N) : B := if zipped n then gz (level c) b else plain b.
 
 Lemma relphys_nonempty : forall n, n <> [] -> relphys n <> [].
 Proof. intros n Hn. unfold relphys. destruct (zipped n); [apply with_gz_nonempty|]; assumption. Qed.
@@ -248,71 +251,84 @@ Lemma run_do : forall A (t : fs B) cl (k : reply B -> prog B A),
   run t (Do cl k) = let '(r, t') := exec_call B (plain []) t cl in run t' (k r).
 Proof. reflexivity. Qed.
 
-Lemma store_refines : forall t m n buf mime ow,
-  Inv t m -> In n U -> exempt mime = ex n ->
-  exists t', run t (store_at B plain gz c (base c ++ n) buf mime ow)
-             = (to_model (fst (spec_store m n buf ow)), t')
-          /\ Inv t' (snd (spec_store m n buf ow)).
+Lemma phys_facts : forall n, In n U -> phys n <> [] /\ cleanb (phys n) = true.
 Proof.
-  intros t m n buf mime ow HI Hn Hex.
-  destruct (HU n Hn) as [Hne [Hcl Hfree]].
-  assert (Hpar : parent (base c ++ n) = base c ++ removelast n)
-    by (unfold parent; apply removelast_app_ne; exact Hne).
+  intros n Hn. destruct (HU n Hn) as [Hne [Hcl _]]. split.
+  - unfold phys. intro E. apply app_eq_nil in E as [_ E]. exact (relphys_nonempty n Hne E).
+  - unfold phys. rewrite cleanb_app, Hbase. simpl. apply relphys_clean. exact Hcl.
+Qed.
+
+(* after makedirs of the parent: same abstract content, parent present *)
+Lemma store_prepare : forall t m n, Inv t m -> In n U ->
+  exists t1, makedirs B t (base c ++ removelast n) = inr t1 /\ Inv t1 m /\
+             lookup t1 (base c ++ removelast n) = Some Dir.
+Proof.
+  intros t m n HI Hn. destruct (HU n Hn) as [Hne [Hcl Hfree]].
   assert (Hclp : cleanb (base c ++ removelast n) = true).
   { rewrite cleanb_app, Hbase. simpl. eapply cleanb_prefix; [|exact Hcl].
     destruct (snoc_cases _ n) as [-> | [h [l ->]]]; [contradiction|].
     rewrite removelast_snoc. apply prefix_app. }
   destruct (makedirs_ok B t (base c ++ removelast n) (i_closed t m HI) Hclp) as [t1 [Hmk [Hc1 Hl1]]].
   { intros q d Hq. eapply way_free; eauto. }
-  (* facts about t1 *)
   assert (Hnp : forall s, In s U -> is_prefix (phys s) (base c ++ removelast n) = false).
   { intros s Hs. destruct (is_prefix (phys s) (base c ++ removelast n)) eqn:E; [|reflexivity].
     apply is_prefix_iff in E. unfold phys in E. apply prefix_cancel in E.
     exfalso. exact (no_phys_above s n _ Hs Hn E eq_refl). }
-  assert (HI1 : Inv t1 m).
-  { constructor.
-    - exact Hc1.
-    - exact (i_dom t m HI).
-    - intros s Hs. rewrite Hl1, (Hnp s Hs). apply (i_phys t m HI). exact Hs.
-    - intros q d Hl Hp. rewrite Hl1 in Hl.
+  exists t1. split; [exact Hmk|]. split.
+  - constructor.
+    + exact Hc1.
+    + exact (i_dom t m HI).
+    + intros s Hs. rewrite Hl1, (Hnp s Hs). apply (i_phys t m HI). exact Hs.
+    + intros q d Hl Hp. rewrite Hl1 in Hl.
       destruct (is_prefix q (base c ++ removelast n)); [discriminate|].
       exact (i_files t m HI q d Hl Hp).
-    - intros q d Hp Hl. rewrite Hl1 in Hl.
+    + intros q d Hp Hl. rewrite Hl1 in Hl.
       destruct (is_prefix q (base c ++ removelast n)); [discriminate|].
       exact (i_above t m HI q d Hp Hl).
-    - intros q Hl Hp Hneq. rewrite Hl1 in Hl.
+    + intros q Hl Hp Hneq. rewrite Hl1 in Hl.
       destruct (is_prefix q (base c ++ removelast n)) eqn:E.
-      + exists n. split; [exact Hn|]. apply is_prefix_iff in E. split.
-        * eapply prefix_trans; [exact E|]. apply prefix_add.
-          destruct (snoc_cases _ n) as [-> | [h [l ->]]]; [contradiction|].
-          rewrite removelast_snoc. apply prefix_app.
-        * intro E2. subst q. apply prefix_cancel, prefix_length in E.
-          destruct (snoc_cases _ n) as [-> | [h [l ->]]]; [contradiction|].
-          rewrite removelast_snoc, app_length in E. simpl in E. lia.
-      + exact (i_dirs t m HI q Hl Hp Hneq). }
-  (* the target *)
-  set (zip := gzip c && negb (exempt mime)).
-  assert (Hzip : zip = zipped n) by (unfold zip, zipped; rewrite Hex; reflexivity).
-  assert (Htarget : (if zip then with_gz (base c ++ n) else base c ++ n) = phys n).
-  { unfold phys, relphys. rewrite <- Hzip. destruct zip; [apply with_gz_app; exact Hne | reflexivity]. }
-  assert (Hdata : (if zip then gz (level c) buf else plain buf) = enc n buf).
-  { unfold enc. rewrite <- Hzip. reflexivity. }
-  assert (Hpne : phys n <> []).
-  { unfold phys. intro E. apply app_eq_nil in E as [_ E]. exact (relphys_nonempty n Hne E). }
-  assert (Hpcl : cleanb (phys n) = true).
-  { unfold phys. rewrite cleanb_app, Hbase. simpl. apply relphys_clean. exact Hcl. }
-  assert (Hppar : lookup t1 (removelast (phys n)) = Some Dir).
-  { unfold phys. rewrite removelast_app_ne by (apply relphys_nonempty; exact Hne).
-    rewrite relphys_parent, Hl1.
+      * exists n. split; [exact Hn|]. apply is_prefix_iff in E. split.
+        -- eapply prefix_trans; [exact E|]. apply prefix_add.
+           destruct (snoc_cases _ n) as [-> | [h [l ->]]]; [contradiction|].
+           rewrite removelast_snoc. apply prefix_app.
+        -- intro E2. subst q. apply prefix_cancel, prefix_length in E.
+           destruct (snoc_cases _ n) as [-> | [h [l ->]]]; [contradiction|].
+           rewrite removelast_snoc, app_length in E. simpl in E. lia.
+      * exact (i_dirs t m HI q Hl Hp Hneq).
+  - rewrite Hl1.
     replace (is_prefix (base c ++ removelast n) (base c ++ removelast n)) with true; [reflexivity|].
-    symmetry. apply is_prefix_iff, prefix_refl. }
-  unfold store_at. fold zip. rewrite Htarget, Hdata, Hpar.
-  rewrite run_do. simpl exec_call. rewrite Hmk.
-  rewrite run_do. simpl exec_call.
+    symmetry. apply is_prefix_iff, prefix_refl.
+Qed.
+
+Lemma phys_parent : forall n, In n U -> removelast (phys n) = base c ++ removelast n.
+Proof.
+  intros n Hn. destruct (HU n Hn) as [Hne _]. unfold phys.
+  rewrite removelast_app_ne by (apply relphys_nonempty; exact Hne). rewrite relphys_parent. reflexivity.
+Qed.
+
+Lemma no_children : forall t m n, Inv t m -> In n U -> forall x, lookup t (phys n ++ [x]) = None.
+Proof.
+  intros t m n HI Hn x. destruct (lookup t (phys n ++ [x])) eqn:E; [|reflexivity].
+  exfalso. assert (Hd : lookup t (phys n) = Some Dir).
+  { apply (i_closed t m HI) with (c := x). rewrite E. discriminate. }
+  exact (phys_not_dir t m n HI Hn Hd).
+Qed.
+
+(* open / write / close of a name in the form it is held in (or not held at all) *)
+Lemma write_refines : forall t1 m n buf ow,
+  Inv t1 m -> In n U -> lookup t1 (base c ++ removelast n) = Some Dir ->
+  exists t', run t1 (write_it B (phys n) (enc n buf) ow)
+             = (to_model (fst (spec_store m n buf ow)), t')
+          /\ Inv t' (snd (spec_store m n buf ow)).
+Proof.
+  intros t1 m n buf ow HI1 Hn Hpar0. destruct (HU n Hn) as [Hne [Hcl Hfree]].
+  destruct (phys_facts n Hn) as [Hpne Hpcl].
+  pose proof (i_closed t1 m HI1) as Hc1.
+  assert (Hppar : lookup t1 (removelast (phys n)) = Some Dir) by (rewrite (phys_parent n Hn); exact Hpar0).
+  unfold write_it. rewrite run_do. simpl exec_call.
   rewrite (open_ok B (plain []) t1 (phys n) (if ow then MW else MX) Hc1 Hpcl Hpne Hppar).
   pose proof (i_phys t1 m HI1 n Hn) as Hph.
   unfold spec_store.
-  (* the tree after a successful open + write *)
   assert (Hdone : forall (t2 : fs B),
             t2 = update t1 (phys n) (File (plain [])) ->
             run t2 (Do (CWrite (phys n) (enc n buf))
@@ -325,11 +341,7 @@ Proof.
             /\ Inv (update t2 (phys n) (File (enc n buf))) (aset m n buf)).
   { intros t2 ->.
     assert (Hc2 : tree_closed B (update t1 (phys n) (File (plain [])))).
-    { apply closed_update; auto. intro x. left.
-      destruct (lookup t1 (phys n ++ [x])) eqn:E; [|reflexivity].
-      exfalso. assert (Hd : lookup t1 (phys n) = Some Dir).
-      { apply (i_closed t1 m HI1) with (c := x). rewrite E. discriminate. }
-      exact (phys_not_dir t1 m n HI1 Hn Hd). }
+    { apply closed_update; auto. intro x. left. exact (no_children t1 m n HI1 Hn x). }
     assert (Hpar2 : lookup (update t1 (phys n) (File (plain []))) (removelast (phys n)) = Some Dir).
     { rewrite lookup_update_other; [exact Hppar|]. intro E.
       apply (f_equal (@length _)) in E. destruct (snoc_cases _ (phys n)) as [E0 | [h [l E0]]]; [contradiction|].
@@ -343,10 +355,7 @@ Proof.
       constructor.
       + unfold t3. apply closed_update; auto. intro x. left.
         rewrite lookup_update_other.
-        * destruct (lookup t1 (phys n ++ [x])) eqn:E; [|reflexivity].
-          exfalso. assert (Hd : lookup t1 (phys n) = Some Dir).
-          { apply (i_closed t1 m HI1) with (c := x). rewrite E. discriminate. }
-          exact (phys_not_dir t1 m n HI1 Hn Hd).
+        * exact (no_children t1 m n HI1 Hn x).
         * intro E. apply (f_equal (@length _)) in E. rewrite app_length in E. simpl in E. lia.
       + intros k b. rewrite aget_aset. destruct (path_eqb n k) eqn:E.
         * apply path_eqb_eq in E. subst k. intros _. exact Hn.
@@ -536,17 +545,211 @@ Proof.
   - reflexivity.
 Qed.
 
+(* a form that is not the one in use holds nothing *)
+Lemma form_absent : forall t m n r, Inv t m -> In n U -> (r = n \/ r = with_gz n) ->
+  base c ++ r <> phys n -> lookup t (base c ++ r) = None.
+Proof.
+  intros t m n r HI Hn Hr Hneq. destruct (HU n Hn) as [Hne [Hcl Hfr]].
+  destruct (lookup t (base c ++ r)) as [[d|]|] eqn:El; [| |reflexivity]; exfalso.
+  - destruct (i_files t m HI _ d El (prefix_app _ _)) as [s [Hs E]].
+    unfold phys in E. apply app_inv_head in E. symmetry in E. destruct Hr as [-> | ->].
+    + apply relphys_eq_free in E as [-> Hz]; auto. apply Hneq. unfold phys, relphys. rewrite Hz. reflexivity.
+    + apply relphys_eq_gz in E as [-> Hz]; auto. apply Hneq. unfold phys, relphys. rewrite Hz. reflexivity.
+  - assert (Hrne : r <> []) by (destruct Hr as [-> | ->]; [exact Hne | apply with_gz_nonempty; exact Hne]).
+    assert (Hb : base c ++ r <> base c).
+    { intro E. rewrite <- (app_nil_r (base c)) in E at 2. apply app_inv_head in E. contradiction. }
+    destruct (i_dirs t m HI _ El (prefix_app _ _) Hb) as [s [Hs [Hp Hn2]]].
+    apply prefix_cancel in Hp. destruct (HU s Hs) as [_ [_ Hfs]]. destruct Hr as [-> | ->].
+    + assert (n = s) by (apply HPF; assumption). subst s. contradiction.
+    + apply with_gz_prefix_not_free in Hp; [congruence | exact Hne].
+Qed.
+
+End STATE.
+
+(* ---------- changing the form of names ---------- *)
+
+(* the forms recorded for names that hold nothing are irrelevant *)
+Lemma Inv_reform : forall fm fm' t m, Inv fm t m ->
+  (forall s, In s U -> aget m s <> None -> fm' s = fm s) -> Inv fm' t m.
+Proof.
+  intros fm fm' t m HI Hsame. constructor.
+  - exact (i_closed fm t m HI).
+  - exact (i_dom fm t m HI).
+  - intros s Hs. pose proof (i_phys fm t m HI s Hs) as Hp.
+    destruct (aget m s) as [b|] eqn:Eg.
+    + assert (E : fm' s = fm s) by (apply Hsame; [exact Hs | rewrite Eg; discriminate]).
+      unfold phys, relphys, enc, zipped in *. rewrite E. exact Hp.
+    + destruct (HU s Hs) as [Hne _].
+      destruct (path_eq_dec (phys fm' s) (phys fm s)) as [E|E]; [rewrite E; exact Hp|].
+      unfold phys at 1. unfold relphys, zipped.
+      apply (form_absent fm t m s _ HI Hs); [destruct (fm' s); auto|].
+      exact E.
+  - intros q d Hl Hp. destruct (i_files fm t m HI q d Hl Hp) as [s [Hs ->]].
+    exists s. split; [exact Hs|].
+    pose proof (i_phys fm t m HI s Hs) as Hps. rewrite Hl in Hps.
+    destruct (aget m s) as [b|] eqn:Eg; [|discriminate].
+    assert (E : fm' s = fm s) by (apply Hsame; [exact Hs | rewrite Eg; discriminate]).
+    unfold phys, relphys, zipped. rewrite E. reflexivity.
+  - exact (i_above fm t m HI).
+  - exact (i_dirs fm t m HI).
+Qed.
+
+Lemma Inv_map_ext : forall fm t m m', (forall k, aget m k = aget m' k) -> Inv fm t m -> Inv fm t m'.
+Proof.
+  intros fm t m m' He HI. constructor.
+  - exact (i_closed fm t m HI).
+  - intros n b H. rewrite <- He in H. exact (i_dom fm t m HI n b H).
+  - intros n Hn. rewrite <- He. exact (i_phys fm t m HI n Hn).
+  - exact (i_files fm t m HI).
+  - exact (i_above fm t m HI).
+  - exact (i_dirs fm t m HI).
+Qed.
+
+Definition upd (fm : path -> bool) (n : path) (z : bool) : path -> bool :=
+  fun q => if path_eqb q n then z else fm q.
+
+Definition adel (m : amap) (n : path) : amap := filter (fun e => negb (path_eqb (fst e) n)) m.
+
+Lemma aget_adel : forall m n k, aget (adel m n) k = if path_eqb n k then None else aget m k.
+Proof.
+  induction m as [|[a v] m IH]; intros n k; simpl.
+  - destruct (path_eqb n k); reflexivity.
+  - destruct (path_eqb a n) eqn:Ean; simpl.
+    + apply path_eqb_eq in Ean. subst a. rewrite IH. destruct (path_eqb n k); reflexivity.
+    + rewrite IH. destruct (path_eqb a k) eqn:Eak; [|reflexivity].
+      apply path_eqb_eq in Eak. subst a. rewrite (proj2 (path_eqb_neq n k)); [reflexivity|].
+      apply path_eqb_neq in Ean. congruence.
+Qed.
+
+(* unlinking the file of a stored name *)
+Lemma unlink_inv : forall fm t m n b z, Inv fm t m -> In n U -> aget m n = Some b ->
+  Inv (upd fm n z) (remove B t (phys fm n)) (adel m n).
+Proof.
+  intros fm t m n b z HI Hn Hg. destruct (HU n Hn) as [Hne [Hcl Hfr]].
+  destruct (phys_facts fm n Hn) as [Hpne Hpcl].
+  assert (Hl : forall q, lookup (remove B t (phys fm n)) q = if path_eqb (phys fm n) q then None else lookup t q)
+    by (intro q; apply lookup_remove; exact Hpne).
+  assert (Hother : forall s, In s U -> s <> n -> upd fm n z s = fm s).
+  { intros s Hs Hne2. unfold upd. rewrite (proj2 (path_eqb_neq s n) Hne2). reflexivity. }
+  assert (Hphys_other : forall s, In s U -> s <> n -> phys (upd fm n z) s = phys fm s /\ phys fm s <> phys fm n).
+  { intros s Hs Hne2. split.
+    - unfold phys, relphys, zipped. rewrite (Hother s Hs Hne2). reflexivity.
+    - intro E. unfold phys in E. apply app_inv_head in E. apply (relphys_inj fm) in E; auto. }
+  constructor.
+  - apply closed_remove; [exact (i_closed fm t m HI) | exact Hpne | exact (no_children fm t m n HI Hn)].
+  - intros k v. rewrite aget_adel. destruct (path_eqb n k); [discriminate | apply (i_dom fm t m HI)].
+  - intros s Hs. rewrite aget_adel, Hl. destruct (path_eqb n s) eqn:E.
+    + apply path_eqb_eq in E. subst s.
+      destruct (path_eqb (phys fm n) (phys (upd fm n z) n)) eqn:E2; [reflexivity|].
+      apply path_eqb_neq in E2. unfold phys at 1. unfold relphys, zipped.
+      apply (form_absent fm t m n _ HI Hn); [destruct (upd fm n z n); auto|].
+      intro E3. apply E2. symmetry. exact E3.
+    + apply path_eqb_neq in E. assert (Hsn : s <> n) by congruence.
+      destruct (Hphys_other s Hs Hsn) as [E1 E2]. rewrite E1.
+      rewrite (proj2 (path_eqb_neq (phys fm n) (phys fm s))) by congruence.
+      pose proof (i_phys fm t m HI s Hs) as Hp. unfold enc, zipped in *. rewrite (Hother s Hs Hsn). exact Hp.
+  - intros q d. rewrite Hl. destruct (path_eqb (phys fm n) q) eqn:E; [discriminate|].
+    intros Hq Hp. destruct (i_files fm t m HI q d Hq Hp) as [s [Hs ->]].
+    exists s. split; [exact Hs|].
+    assert (Hsn : s <> n) by (intro E2; subst s; rewrite path_eqb_refl in E; discriminate).
+    symmetry. apply (Hphys_other s Hs Hsn).
+  - intros q d Hp. rewrite Hl. destruct (path_eqb (phys fm n) q); [discriminate | apply (i_above fm t m HI); exact Hp].
+  - intros q. rewrite Hl. destruct (path_eqb (phys fm n) q); [discriminate | apply (i_dirs fm t m HI)].
+Qed.
+
+(* ---------- store: any MIME type on any name ---------- *)
+
+Lemma store_refines : forall fm t m n buf mime ow,
+  Inv fm t m -> In n U ->
+  exists t' fm', run t (store_at B plain gz c (base c ++ n) buf mime ow)
+             = (to_model (fst (spec_store m n buf ow)), t')
+          /\ Inv fm' t' (snd (spec_store m n buf ow))
+          /\ (forall r, fst (spec_store m n buf ow) = Ok r -> fm' n = gzip c && negb (exempt mime)).
+Proof.
+  intros fm t m n buf mime ow HI Hn.
+  destruct (HU n Hn) as [Hne [Hcl Hfree]].
+  assert (Hpar : parent (base c ++ n) = base c ++ removelast n)
+    by (unfold parent; apply removelast_app_ne; exact Hne).
+  destruct (store_prepare fm t m n HI Hn) as [t1 [Hmk [HI1 Hdir]]].
+  set (zip := gzip c && negb (exempt mime)).
+  set (fm' := upd fm n zip).
+  assert (Hfm'n : fm' n = zip) by (unfold fm', upd; rewrite path_eqb_refl; reflexivity).
+  assert (Htarget : (if zip then with_gz (base c ++ n) else base c ++ n) = phys fm' n).
+  { unfold phys, relphys, zipped. rewrite Hfm'n. destruct zip; [apply with_gz_app; exact Hne | reflexivity]. }
+  assert (Hdata : (if zip then gz (level c) buf else plain buf) = enc fm' n buf).
+  { unfold enc, zipped. rewrite Hfm'n. reflexivity. }
+  (* is the name held in the other form? *)
+  assert (Hisf : is_file B t1 (if zip then base c ++ n else with_gz (base c ++ n))
+                 = match aget m n with Some _ => negb (Bool.eqb (fm n) zip) | None => false end).
+  { destruct zip.
+    - rewrite (is_file_plain fm t1 m n HI1 Hne Hcl Hfree), (in_U_existsb n Hn).
+      destruct (aget m n); [|reflexivity]. unfold zipped. destruct (fm n); reflexivity.
+    - rewrite (is_file_gz fm t1 m n HI1 Hne Hcl Hfree), (in_U_existsb n Hn).
+      destruct (aget m n); [|reflexivity]. unfold zipped. destruct (fm n); reflexivity. }
+  unfold store_at. fold zip. rewrite Htarget, Hdata, Hpar.
+  rewrite run_do. simpl exec_call. rewrite Hmk.
+  rewrite run_do. simpl exec_call.
+  match goal with
+  | |- context [is_file B t1 ?p] =>
+      replace (is_file B t1 p)
+        with (match aget m n with Some _ => negb (Bool.eqb (fm n) zip) | None => false end)
+        by (symmetry; exact Hisf)
+  end.
+  destruct (aget m n) as [old|] eqn:Eg.
+  - destruct (Bool.eqb (fm n) zip) eqn:Ef; simpl negb; cbv iota.
+    + (* held in the form being written *)
+      apply eqb_prop in Ef.
+      assert (HI1' : Inv fm' t1 m).
+      { apply (Inv_reform fm fm' t1 m HI1). intros s Hs _. unfold fm', upd.
+        destruct (path_eqb s n) eqn:E; [|reflexivity]. apply path_eqb_eq in E. subst s. symmetry. exact Ef. }
+      destruct (write_refines fm' t1 m n buf ow HI1' Hn Hdir) as [t' [Hr HI']].
+      exists t', fm'. split; [exact Hr | split; [exact HI' | intros; exact Hfm'n]].
+    + (* held in the other form *)
+      destruct ow.
+      * (* unlink it, then write *)
+        assert (Hoth : (if zip then base c ++ n else with_gz (base c ++ n)) = phys fm n).
+        { unfold phys, relphys, zipped. destruct zip; destruct (fm n); try discriminate.
+          - reflexivity.
+          - apply with_gz_app. exact Hne. }
+        match goal with
+        | |- context [CUnlink ?p] => replace p with (phys fm n) by (symmetry; exact Hoth)
+        end.
+        rewrite run_do. simpl exec_call.
+        destruct (phys_facts fm n Hn) as [Hpne Hpcl].
+        rewrite (unlink_ok B t1 (phys fm n) _ (i_closed fm t1 m HI1) Hpcl (lookup_phys_file fm t1 m n old HI1 Hn Eg)).
+        pose proof (unlink_inv fm t1 m n old zip HI1 Hn Eg) as HIr. fold fm' in HIr.
+        assert (Hdir' : lookup (remove B t1 (phys fm n)) (base c ++ removelast n) = Some Dir).
+        { rewrite lookup_remove by exact Hpne.
+          destruct (path_eqb (phys fm n) (base c ++ removelast n)) eqn:E; [|exact Hdir].
+          apply path_eqb_eq in E. pose proof (lookup_phys_file fm t1 m n old HI1 Hn Eg) as Hf.
+          rewrite E in Hf. congruence. }
+        destruct (write_refines fm' _ (adel m n) n buf true HIr Hn Hdir') as [t' [Hr HI']].
+        unfold spec_store in Hr, HI'. rewrite aget_adel, path_eqb_refl in Hr, HI'. simpl in Hr, HI'.
+        exists t', fm'. unfold spec_store. rewrite Eg. simpl. split; [exact Hr|]. split; [|intros; exact Hfm'n].
+        apply (Inv_map_ext fm' t' (aset (adel m n) n buf)); [|exact HI'].
+        intro k. rewrite !aget_aset, aget_adel. destruct (path_eqb n k); reflexivity.
+      * (* FileExistsError *)
+        exists t1, fm. unfold spec_store. rewrite Eg. split; [reflexivity | split; [exact HI1 | discriminate]].
+  - (* not held at all *)
+    cbv iota.
+    assert (HI1' : Inv fm' t1 m).
+    { apply (Inv_reform fm fm' t1 m HI1). intros s Hs Hsome. unfold fm', upd.
+      destruct (path_eqb s n) eqn:E; [|reflexivity]. apply path_eqb_eq in E. subst s. congruence. }
+    destruct (write_refines fm' t1 m n buf ow HI1' Hn Hdir) as [t' [Hr HI']].
+    exists t', fm'. split; [exact Hr | split; [exact HI' | intros; exact Hfm'n]].
+Qed.
+
 (* ---------- one operation ---------- *)
 
 Definition op_ok (o : op) : Prop :=
   match o with
   | OStoreFile n _ mime _ =>
-      is_absolute n = false /\ forall p, spec_norm n = Some p -> In p U /\ exempt mime = ex p
+      is_absolute n = false /\ forall p, spec_norm n = Some p -> In p U
   | OFetchFile n | OExists n =>
       is_absolute n = false /\ forall p, spec_norm n = Some p -> In p U
   | OStoreChunk k co _ mime _ =>
       k <> [] /\ is_absolute k = false /\
-      forall p, spec_chunk_name (flat c) k co = Some p -> In p U /\ exempt mime = ex p
+      forall p, spec_chunk_name (flat c) k co = Some p -> In p U
   | OFetchChunk k co =>
       k <> [] /\ is_absolute k = false /\
       forall kp, spec_key k = Some kp ->
@@ -568,75 +771,77 @@ Proof.
   destruct (filter keep_comp (split_slash s)); reflexivity.
 Qed.
 
-Lemma op_refines : forall t m o, Inv t m -> op_ok o ->
-  exists t', run_op B plain gz gunzip c t o = (to_model (fst (spec_op (flat c) m o)), t')
-          /\ Inv t' (snd (spec_op (flat c) m o)).
+Lemma op_refines : forall fm t m o, Inv fm t m -> op_ok o ->
+  exists t' fm', run_op B plain gz gunzip c t o = (to_model (fst (spec_op (flat c) m o)), t')
+          /\ Inv fm' t' (snd (spec_op (flat c) m o)).
 Proof.
-  intros t m o HI Hok. unfold run_op. destruct o as [n buf mime ow | n | n | k co buf mime ow | k co];
+  intros fm t m o HI Hok. unfold run_op. destruct o as [n buf mime ow | n | n | k co buf mime ow | k co];
     simpl op_prog; unfold spec_op; simpl op_name.
   - (* store_file *)
     destruct Hok as [Hrel Hn]. unfold fa_store_file. rewrite (checked_path_rel n Hrel).
     destruct (spec_norm n) as [p|] eqn:Es; simpl option_map.
-    + destruct (Hn p eq_refl) as [Hin Hex]. apply store_refines; assumption.
-    + exists t. split; [reflexivity | exact HI].
+    + destruct (store_refines fm t m p buf mime ow HI (Hn p eq_refl)) as [t' [fm' [H1 [H2 _]]]].
+      exists t', fm'. split; assumption.
+    + exists t, fm. split; [reflexivity | exact HI].
   - (* fetch_file *)
     destruct Hok as [Hrel Hn]. unfold fa_fetch_file. rewrite (checked_path_rel n Hrel).
     destruct (spec_norm n) as [p|] eqn:Es; simpl option_map.
-    + pose proof (Hn p eq_refl) as Hin. exists t. split; [|exact HI].
-      rewrite (probe_name _ t m p None _ _ HI Hin). simpl fst.
-      exact (fetch_after t m p HI Hin).
-    + exists t. split; [reflexivity | exact HI].
+    + pose proof (Hn p eq_refl) as Hin. exists t, fm. split; [|exact HI].
+      rewrite (probe_name fm _ t m p None _ _ HI Hin). simpl fst.
+      exact (fetch_after fm t m p HI Hin).
+    + exists t, fm. split; [reflexivity | exact HI].
   - (* file_exists *)
     destruct Hok as [Hrel Hn]. unfold fa_file_exists. rewrite (checked_path_rel n Hrel).
     destruct (spec_norm n) as [p|] eqn:Es; simpl option_map.
     + pose proof (Hn p eq_refl) as Hin. destruct (HU p Hin) as [Hne [Hcl Hfr]].
-      exists t. split; [|exact HI].
+      exists t, fm. split; [|exact HI].
       rewrite run_do. simpl exec_call.
-      rewrite (is_file_plain t m p HI Hne Hcl Hfr), (in_U_existsb p Hin).
+      rewrite (is_file_plain fm t m p HI Hne Hcl Hfr), (in_U_existsb p Hin).
       simpl fst. unfold spec_exists.
       destruct (aget m p) as [b|] eqn:Eg.
-      * destruct (zipped p) eqn:Ez; simpl negb; cbv iota.
+      * destruct (zipped fm p) eqn:Ez; simpl negb; cbv iota.
         -- rewrite run_do. simpl exec_call.
-           rewrite (is_file_gz t m p HI Hne Hcl Hfr), (in_U_existsb p Hin), Eg, Ez. reflexivity.
+           rewrite (is_file_gz fm t m p HI Hne Hcl Hfr), (in_U_existsb p Hin), Eg, Ez. reflexivity.
         -- reflexivity.
       * cbv iota. rewrite run_do. simpl exec_call.
-        rewrite (is_file_gz t m p HI Hne Hcl Hfr), (in_U_existsb p Hin), Eg. reflexivity.
-    + exists t. split; [reflexivity | exact HI].
+        rewrite (is_file_gz fm t m p HI Hne Hcl Hfr), (in_U_existsb p Hin), Eg. reflexivity.
+    + exists t, fm. split; [reflexivity | exact HI].
   - (* store_chunk *)
     destruct Hok as [Hk [Ha Hn]]. unfold fa_store_chunk.
     rewrite (chunk_path_spec c (flat c) k co Hk Ha).
     destruct (spec_chunk_name (flat c) k co) as [p|] eqn:Es; simpl option_map.
-    + destruct (Hn p eq_refl) as [Hin Hex]. apply store_refines; assumption.
-    + exists t. split; [reflexivity | exact HI].
+    + destruct (store_refines fm t m p buf mime ow HI (Hn p eq_refl)) as [t' [fm' [H1 [H2 _]]]].
+      exists t', fm'. split; assumption.
+    + exists t, fm. split; [reflexivity | exact HI].
   - (* fetch_chunk *)
     destruct Hok as [Hk [Ha Hn]]. unfold fa_fetch_chunk.
     rewrite (chunk_path_spec c true k co Hk Ha), (chunk_path_spec c false k co Hk Ha).
     unfold spec_chunk_name. destruct (spec_key k) as [kp|] eqn:Es; simpl option_map.
     + destruct (Hn kp eq_refl) as [Hin Hoth].
-      exists t. split; [|exact HI]. simpl fst.
+      exists t, fm. split; [|exact HI]. simpl fst.
       destruct (flat c) eqn:Ef; simpl negb in Hoth.
-      * rewrite (probe_name _ t m _ None _ _ HI Hin).
-        rewrite (probe_other _ t m _ _ _ _ HI Hoth).
-        exact (fetch_after t m _ HI Hin).
-      * rewrite (probe_other _ t m _ None _ _ HI Hoth).
-        rewrite (probe_name _ t m _ None _ _ HI Hin).
-        exact (fetch_after t m _ HI Hin).
-    + exists t. split; [reflexivity | exact HI].
+      * rewrite (probe_name fm _ t m _ None _ _ HI Hin).
+        rewrite (probe_other fm _ t m _ _ _ _ HI Hoth).
+        exact (fetch_after fm t m _ HI Hin).
+      * rewrite (probe_other fm _ t m _ None _ _ HI Hoth).
+        rewrite (probe_name fm _ t m _ None _ _ HI Hin).
+        exact (fetch_after fm t m _ HI Hin).
+    + exists t, fm. split; [reflexivity | exact HI].
 Qed.
 
 (* ---------- every sequence ---------- *)
 
-Theorem refinement : forall ops t m, Inv t m -> Forall op_ok ops ->
+Theorem refinement : forall ops fm t m, Inv fm t m -> Forall op_ok ops ->
   fst (run_ops B plain gz gunzip c t ops) = map to_model (fst (spec_ops (flat c) m ops)) /\
-  Inv (snd (run_ops B plain gz gunzip c t ops)) (snd (spec_ops (flat c) m ops)).
+  exists fm', Inv fm' (snd (run_ops B plain gz gunzip c t ops)) (snd (spec_ops (flat c) m ops)).
 Proof.
-  induction ops as [|o ops IH]; intros t m HI Hok.
-  - simpl. auto.
+  induction ops as [|o ops IH]; intros fm t m HI Hok.
+  - simpl. split; [reflexivity | exists fm; exact HI].
   - inversion Hok as [|? ? Ho Hrest]; subst.
-    destruct (op_refines t m o HI Ho) as [t' [Hr HI']].
+    destruct (op_refines fm t m o HI Ho) as [t' [fm1 [Hr HI']]].
     simpl run_ops. simpl spec_ops. rewrite Hr.
     destruct (spec_op (flat c) m o) as [x m1] eqn:Es. simpl fst in *. simpl snd in *.
-    specialize (IH t' m1 HI' Hrest).
+    specialize (IH fm1 t' m1 HI' Hrest).
     destruct (run_ops B plain gz gunzip c t' ops) as [xs t2].
     destruct (spec_ops (flat c) m1 ops) as [ys m2]. simpl in *.
     destruct IH as [IH1 IH2]. split; [f_equal; exact IH1 | exact IH2].
